@@ -128,7 +128,7 @@ fn enumerated() -> Vec<EncCase> {
 fn run(ctx: &Arc<Ctx>) {
     ctx.run_enumerated("lengths", "enc", enumerated(), Some("every length 0..=16 of header-prefix / trailer combinations x 6 mode sets x 4 flag combinations"), check);
     let o = EncGenOpts { long_weight: 0, macro_weight: 30, ..Default::default() };
-    ctx.run_generated("generated", "enc", ctx.cases(300_000, 3_000_000), || g_enc_case(o), check);
+    ctx.run_generated("generated", "enc", ctx.cases(800_000, 5_000_000), || g_enc_case(o), check);
 }
 
 fn replay(_ctx: &Ctx, kind: &str, case: &Value) -> Option<Verdict> {
